@@ -10,13 +10,17 @@ import (
 	"crypto/rand"
 	stdx509 "crypto/x509"
 	"crypto/x509/pkix"
+	"context"
 	"fmt"
+	"io"
+	"net/http"
 	"math/big"
 	stdx509key "crypto/x509"
 	"strings"
 	"testing"
 	"time"
 
+	ct "github.com/google/certificate-transparency-go"
 	"github.com/google/certificate-transparency-go/client"
 	"github.com/google/certificate-transparency-go/client/configpb"
 	"github.com/google/certificate-transparency-go/internal/verifkit"
@@ -124,6 +128,14 @@ func reloc(r *verifkit.Rand, t time.Time) time.Time {
 		return t.UTC()
 	}
 	return t
+}
+
+// hostRecorder is the http.RoundTripper of the shard clients: it records which shard was contacted and refuses the request.
+type hostRecorder struct{ hosts []string }
+
+func (h *hostRecorder) RoundTrip(req *http.Request) (*http.Response, error) {
+	h.hosts = append(h.hosts, req.URL.Host)
+	return &http.Response{StatusCode: 400, Status: "400 Bad Request", Header: http.Header{}, Body: io.NopCloser(strings.NewReader("verif")), Request: req}, nil
 }
 
 func ts(t *time.Time) *tspb.Timestamp {
@@ -304,6 +316,9 @@ func TestVerifC18(t *testing.T) {
 		default:
 			when = base.Add(time.Duration(r.I64n(int64(1200 * time.Hour))))
 		}
+		if r.Intn(2) == 0 {
+			when = when.Truncate(time.Second)
+		}
 		key := fmt.Sprintf("shards%s t=%s", desc, ns(when))
 		ans := ""
 		tlc, err := client.NewTemporalLogClient(&configpb.TemporalLogConfig{Shard: shards}, nil)
@@ -337,6 +352,25 @@ func TestVerifC18(t *testing.T) {
 				if cnt != 1 || which != idx {
 					out.Fail(key, fmt.Sprintf("routed to %d but %d shard windows contain the instant (last %d)", idx, cnt, which))
 				}
+			}
+		}
+		// the full routing path: TemporalLogClient.AddChain parses the certificate and contacts exactly the routed shard
+		if err == nil && when.Nanosecond() == 0 && when.Year() >= 1600 && when.Year() <= 9998 {
+			rec := &hostRecorder{}
+			tlc2, err2 := client.NewTemporalLogClient(&configpb.TemporalLogConfig{Shard: shards}, &http.Client{Transport: rec})
+			if err2 == nil {
+				_, _ = tlc2.AddChain(context.Background(), []ct.ASN1Cert{{Data: p.leaf(when)}, {Data: p.caDER}})
+				want := ""
+				for i := 0; i < k; i++ {
+					if inWin(los[i], ups[i], when) {
+						want = fmt.Sprintf("s%d", i)
+					}
+				}
+				got := strings.Join(rec.hosts, ",")
+				if got != want {
+					out.Fail(key, fmt.Sprintf("AddChain contacted shard(s) %q, the certificate's NotAfter belongs to %q", got, want))
+				}
+				out.Count("class:addchain-routed")
 			}
 		}
 		op := fmt.Sprintf("shards %d%s %s", k, desc, ns(when))
